@@ -552,6 +552,13 @@ func buildExternals() map[string]extFn {
 		}
 		return false
 	}
+	// diagnostics quote the offending byte; on a symbolic byte the text is opaque
+	m[repoModule+"/bytes.QuoteChar"] = func(ex *Exec, fr *frame, a []value) value {
+		if _, sym := a[0].(*Term); sym {
+			return &Opaque{why: "bytes.QuoteChar of symbolic byte"}
+		}
+		return declined{}
+	}
 	addSync(m)
 	addHost(m)
 	return m
